@@ -300,6 +300,24 @@ func c12Run(t *testing.T, c *evid.Collector) {
 				}
 			}
 		}
+		// chunk sizes that need six and seven hex digits (the documented example has five)
+		for _, ch := range [][]int{{1 << 20}, {3, 1<<20 + 1, 70000}, {1 << 24}} {
+			for _, fr := range []s3x.Frag{{Mode: "whole"}, {Mode: "n", N: 33000}} {
+				i++
+				if i%evid.Shards() != evid.Shard() {
+					continue
+				}
+				n := 1<<20 + 70010
+				if ch[0] == 1<<24 {
+					if !evid.Thorough() && cfg.K != backends.Mem {
+						continue
+					}
+					n = 1<<24 + 5
+				}
+				cs := c12Case{Backend: cfg.K, StreamBuf: cfg.Buf, Payload: bodySpec{N: n, Seed: 9}, Chunks: ch, Frag: fr, Prior: i%2 == 0}
+				record(cs, c12Check(cs), "grid-large-chunk")
+			}
+		}
 		// malformed streams and length mismatches
 		for _, p := range []bodySpec{{N: 100, Seed: 1}, {N: 40000, Seed: 2}, {}} {
 			for _, m := range c12Muts {
